@@ -76,7 +76,7 @@ class P(ServeProp):
                         elif r is None: sig = "response-not-well-formed"
                         else:
                             cl = httpcanon.header(r, "Content-Length")
-                            if len(cl) == 1 and cl[0].isdigit() and int(cl[0]) != len(r["body"]) and not data.startswith((b"HEAD", b"OPTIONS")):
+                            if len(cl) == 1 and cl[0].isdigit() and int(cl[0]) != len(r["body"]) and httpcanon.request_method(data) not in (b"HEAD", b"OPTIONS"):
                                 sig = "content-length-differs-from-body"
                         if sig:
                             fails.append(("%s with %d silent connection(s) open on -t=%d" % (sig, k, N), sig, None,
